@@ -327,6 +327,11 @@ def handleSrvMsg (st : SrvSt) (c : Nat) (m : Msg) (ops : List Op) (resps : List 
     -- not because of what a session that has gone away left behind
     let st := if mc == "open" && code != "open" then
         let st := st.monfail "c09" s!"session {c}: the specification accepts this message, the server ended the RPC (code {code} reason {reason})"
+        -- an election announcement that is refused is an id the server never learns: if it is
+        -- the highest, its announcer is not primary and no response carries the maximum (C05)
+        let st := match m with
+          | .elec e => st.monfail "c05" s!"session {c} announced election id {showElec (some e)}, which the specification accepts, and the server ended the RPC (code {code}): the id is not learnt"
+          | _ => st
         let gone := st.ended.filter (fun x => x != c)
         if gone.isEmpty then st
         else st.monfail "c10" s!"session {c}: after sessions {gone} had gone away, a message the specification accepts ended this session's RPC (code {code})"
